@@ -6,11 +6,12 @@ Model of the two ends of the `rdsquashfs --describe` → `gensquashfs --pack-fil
 * `lib/util/src/get_line.c`             — `fileLines`   (`istream_get_line` with LTRIM | SKIP_EMPTY)
 * `bin/gensquashfs/src/fstree_from_file.c` — `handleLine`, `fstreeFromFile` (keyword table, arity, field decoding,
                                            up to the `sqfs_dir_entry_t` + `extra` handed to `fstree_add_generic`)
-* `bin/rdsquashfs/src/describe.c`       — `describeNode`, `describeTree`  (the printer **as it is in /repo today**,
-                                           i.e. after fix 96e45c1 "quote and escape names, link targets and file
-                                           locations"; the printer of the pinned snapshot is `Sqfs/Model/QuoteOld.lean`,
-                                           the printer with `fixes/C16-describe-newline.patch` applied is
-                                           `Sqfs/Model/QuoteLF.lean`)
+* `bin/rdsquashfs/src/describe.c`       — `describeNode`, `describeTree`: the printer **without the line-feed test**,
+                                           i.e. the code between fix 96e45c1 "quote and escape names, link targets and
+                                           file locations" and fix 4b35342 "refuse a line feed".  The printer as it is
+                                           in /repo is `Sqfs/Model/QuoteLF.lean` (it reuses everything here and adds the
+                                           test; the two agree wherever nothing to print contains LF); the printer of
+                                           the pinned snapshot is `Sqfs/Model/QuoteOld.lean`
 * `lib/common/src/dir_tree.c: sqfs_tree_node_get_path` — `getPath`
 * glibc `major`/`minor`/`makedev` (sys/sysmacros.h) — `devMajor`, `devMinor`, `makedev`
 
@@ -209,6 +210,7 @@ structure Entry where
   gid : Nat
   rdev : Nat
   extra : Option Bytes
+  flags : Nat := 0      -- `ent->flags`: `cb->flags` of the keyword (SQFS_DIR_ENTRY_FLAG_HARD_LINK for `link`, 0 otherwise)
   deriving DecidableEq, Repr
 
 inductive HErr
@@ -240,21 +242,22 @@ def KW_FILE : Bytes := [102, 105, 108, 101]   -- "file"
 structure Hook where
   keyword : Bytes
   mode : Nat
+  flags : Nat
   needExtra : Bool
   allowRoot : Bool
   cb : Callback
   deriving DecidableEq
 
 open Sqfs.Consts in
-/-- `file_list_hooks[]` (the `flags` column is not modelled: nothing on the describe path depends on it) -/
+/-- `file_list_hooks[]`: keyword, mode, flags, need_extra, allow_root, callback -/
 def hooks : List Hook := [
-  ⟨KW_DIR,   sIFDIR,  false, true,  .generic⟩,
-  ⟨KW_SLINK, sIFLNK,  true,  false, .generic⟩,
-  ⟨KW_LINK,  sIFLNK,  true,  false, .generic⟩,
-  ⟨KW_NOD,   0,       true,  false, .device⟩,
-  ⟨KW_PIPE,  sIFIFO,  false, false, .generic⟩,
-  ⟨KW_SOCK,  sIFSOCK, false, false, .generic⟩,
-  ⟨KW_FILE,  sIFREG,  false, false, .file⟩ ]
+  ⟨KW_DIR,   sIFDIR,  0, false, true,  .generic⟩,
+  ⟨KW_SLINK, sIFLNK,  0, true,  false, .generic⟩,
+  ⟨KW_LINK,  sIFLNK,  dirEntryFlagHardLink, true,  false, .generic⟩,
+  ⟨KW_NOD,   0,       0, true,  false, .device⟩,
+  ⟨KW_PIPE,  sIFIFO,  0, false, false, .generic⟩,
+  ⟨KW_SOCK,  sIFSOCK, 0, false, false, .generic⟩,
+  ⟨KW_FILE,  sIFREG,  0, false, false, .file⟩ ]
 
 def findHook (kw : Bytes) : List Hook → Option Hook
   | [] => none
@@ -339,7 +342,8 @@ def handleLine (opt : Opt) (args : List Bytes) : Except HErr Entry :=
               | some h =>
                 if h.needExtra && rest = [] then .error .noExtra
                 else
-                  let ent : Entry := { name := path, mode := mode ||| h.mode, uid := uid, gid := gid, rdev := 0, extra := none }
+                  -- `ent->flags = is_glob ? 0 : cb->flags` (since 99d70b1: a `link` line is a hard link)
+                  let ent : Entry := { name := path, mode := mode ||| h.mode, uid := uid, gid := gid, rdev := 0, extra := none, flags := h.flags }
                   match h.cb with
                   | .generic => addGeneric ent rest
                   | .device => addDevice ent rest
@@ -396,7 +400,7 @@ def fromLines (opt : Opt) : List Bytes → List Entry × Option FErr
 def fstreeFromFile (opt : Opt) (content : Bytes) : List Entry × Option FErr :=
   fromLines opt ((splitLF content []).map cookLine)
 
-/-! ## `describe.c` (as in /repo: `print_escaped` quotes on space, tab, CR, `"`, `\`; no test for LF) -/
+/-! ## `describe.c` without the line-feed test of 4b35342 (`print_escaped` quotes on space, tab, CR, `"`, `\`) -/
 
 inductive Kind | dir | file | slink | chr | blk | fifo | sock | other
   deriving DecidableEq, Repr
@@ -415,7 +419,7 @@ inductive DErr
   | insaneName     -- `is_filename_sane` refused the node's name
   | path           -- `sqfs_tree_node_get_path` failed (empty / "." / ".." / contains '/')
   | canon          -- `canonicalize_name` failed
-  | newline        -- only with `fixes/C16-describe-newline.patch` (`Sqfs.QuoteLF`): a string to print contains LF
+  | newline        -- `Sqfs.QuoteLF` (the printer in /repo): a string to print contains LF
   deriving DecidableEq, Repr
 
 /-- `sqfs_tree_node_get_path` for the node whose ancestors' names (root excluded) and own name are `comps` -/
